@@ -608,17 +608,47 @@ core_fields register (c : C) (id : Nat) : ((register c id).2).s ~ c.s skip [] :=
   unfold register; try dsimp only
   all_goals ((repeat' split) <;> first | rfl | simp [])
 
+/-- `release_packet_id` (fix ba1a812): of the core fields only `puback`, `pubrec` (the identifier
+    leaves them) and `sendCount` (the credit of an abandoned PUBLISH comes back) change -/
 theorem releasePacketId_core (c : C) (id : Nat) :
-    (releasePacketId c id).s.core = c.s.core := by
-  unfold releasePacketId; try dsimp only
-  all_goals ((repeat' split) <;> first | rfl | simp [St.core, OtherSite, siteStored, sitePublish])
-core_fields releasePacketId (c : C) (id : Nat) : (releasePacketId c id).s ~ c.s skip [] := releasePacketId_core c id
+    (releasePacketId c id).s.core = { c.s with sendCount := (releasePacketId c id).s.sendCount, puback := (releasePacketId c id).s.puback, pubrec := (releasePacketId c id).s.pubrec }.core := by
+  rcases releasePacketId_eq c id with ⟨_, e⟩ | ⟨_, _, e⟩ | ⟨_, _, e⟩ <;> rw [e]
+  · simp [St.core]
+  · simp [St.core, dropWaits]
+  · rcases decSendCount_s_cases (dropWaits (releaseIfUsed c id) id) with e' | e' <;> rw [e'] <;>
+      simp [St.core, dropWaits]
+core_fields releasePacketId (c : C) (id : Nat) : (releasePacketId c id).s ~ { c.s with sendCount := (releasePacketId c id).s.sendCount, puback := (releasePacketId c id).s.puback, pubrec := (releasePacketId c id).s.pubrec } skip [sendCount, puback, pubrec] := releasePacketId_core c id
 @[simp] theorem releasePacketId_cfg (c : C) (id : Nat) : (releasePacketId c id).cfg = c.cfg := by
-  unfold releasePacketId; try dsimp only
-  all_goals ((repeat' split) <;> first | rfl | simp [])
+  rw [releasePacketId_cfg', releaseIfUsed_cfg]
 @[simp] theorem releasePacketId_pubs (c : C) (id : Nat)  : pubs (releasePacketId c id).ev = pubs c.ev := by
-  unfold releasePacketId; try dsimp only
-  all_goals ((repeat' split) <;> first | rfl | simp [])
+  rw [releasePacketId_ev', releaseIfUsed_pubs]
+
+/-- the three core fields `release_packet_id` changes, exactly -/
+theorem releasePacketId_puback (c : C) (id : Nat) :
+    (releasePacketId c id).s.puback = if isUsed c.s id = true then del id c.s.puback else c.s.puback := by
+  rcases releasePacketId_eq c id with ⟨hu, e⟩ | ⟨hu, _, e⟩ | ⟨hu, _, e⟩ <;> rw [e]
+  · simp [hu]
+  · simp [hu, dropWaits]
+  · rcases decSendCount_s_cases (dropWaits (releaseIfUsed c id) id) with e' | e' <;> rw [e'] <;> simp [hu, dropWaits]
+theorem releasePacketId_pubrec (c : C) (id : Nat) :
+    (releasePacketId c id).s.pubrec = if isUsed c.s id = true then del id c.s.pubrec else c.s.pubrec := by
+  rcases releasePacketId_eq c id with ⟨hu, e⟩ | ⟨hu, _, e⟩ | ⟨hu, _, e⟩ <;> rw [e]
+  · simp [hu]
+  · simp [hu, dropWaits]
+  · rcases decSendCount_s_cases (dropWaits (releaseIfUsed c id) id) with e' | e' <;> rw [e'] <;> simp [hu, dropWaits]
+theorem releasePacketId_sendCount (c : C) (id : Nat) :
+    (releasePacketId c id).s.sendCount =
+      if isUsed c.s id = true ∧ (id ∈ c.s.puback ∨ id ∈ c.s.pubrec) ∧ c.s.sendMax.isSome = true ∧ c.s.sendCount > 0
+      then c.s.sendCount - 1 else c.s.sendCount := by
+  rcases releasePacketId_eq c id with ⟨hu, e⟩ | ⟨hu, hna, e⟩ | ⟨hu, ha, e⟩
+  · rw [e]; simp [hu]
+  · simp only [releaseIfUsed_puback, releaseIfUsed_pubrec] at hna
+    rw [e]; simp [hu, dropWaits, hna]
+  · rw [e]
+    simp only [releaseIfUsed_puback, releaseIfUsed_pubrec] at ha
+    unfold decSendCount
+    simp [hu, ha, dropWaits]
+    split <;> simp_all
 
 theorem restoreOne_core (c : C) (p : Pkt) :
     (restoreOne c p).s.core = { c.s with store := (restoreOne c p).s.store, puback := (restoreOne c p).s.puback, pubrec := (restoreOne c p).s.pubrec, pubcomp := (restoreOne c p).s.pubcomp }.core := by
